@@ -49,10 +49,10 @@ def plan(tier, seed):
     fast = fast_variants()
     shards = []
     if quick:
-        asan_args = ["--cases", 0, "--seq", 56, "--promo", 12, "--sym", 400, "--search", 5, "--nodes", 3000]
+        asan_args = ["--cases", 0, "--seq", 56, "--promo", 12, "--sym", 400, "--search", 5, "--nodes", 3000, "--max-pollute", 1500]
         big_args = ["--cases", 0, "--seq", 1400, "--promo", 300, "--sym", 6000, "--search", 50, "--nodes", 4000]
     else:
-        asan_args = ["--cases", 0, "--seq", 5000, "--promo", 1000, "--sym", 40000, "--search", 400, "--nodes", 6000]
+        asan_args = ["--cases", 0, "--seq", 5000, "--promo", 1000, "--sym", 40000, "--search", 400, "--nodes", 6000, "--max-pollute", 1500]
         big_args = ["--cases", 0, "--seq", 100000, "--promo", 20000, "--sym", 500000, "--search", 4000, "--nodes", 8000]
     # (1)-(4),(6) under ASan+UBSan: two shards per network.  The first of each pair also writes its value stream
     # ("small" group) and has one twin per fast variant (same shard number => same seeded cases): generic-vs-SIMD
